@@ -106,6 +106,7 @@ fn main() {
             let seed: u64 = arg(&args, "--seed").and_then(|x| x.parse().ok()).unwrap_or(1);
             let what = arg(&args, "--what").unwrap_or("sph".into());
             let r = float::load(&files).and_then(|t| special::load_series(&files).and_then(|s| special::special_sweep(&t, &s, &what, samples, seed, arg(&args, "--types").as_deref())));
+            let r = r.and_then(|mut v| { if what == "bessel" { v["bessel_classes"] = serde_json::Value::Array(special::bessel_class_coverage(&files)?); } Ok(v) });
             match r {
                 Ok(v) => println!("{v}"),
                 Err(e) => {
